@@ -7,7 +7,7 @@ from fractions import Fraction
 from .. import dag, qk
 from ..arr import Arr
 from ..core import pmap
-from ..pe import PE, Obj, PERaise
+from ..pe import PE, Obj, PERaise, decide_on_values
 from ..src import load, stmt_text
 
 LEVEL = "proof"
@@ -157,7 +157,7 @@ def run(chk):
             pec.overrides[f"{CP}.Couplings.compute"] = compute_model
             pec.overrides["eko.matchings.Atlas.path"] = lambda pe_, a, k: [seg]
             pec.overrides["eko.matchings.lepton_number"] = lambda pe_, a, k, it=leps: next(it)
-            pec.assume = lambda text, env: True if text == "not np.isclose(seg.origin, seg.target)" else None
+            pec.assume = lambda text, env: decide_on_values(pec, text, env) if "isclose" in text else None   # origin 2 and target 100 are apart
             try:
                 pec.apply(pec.getattr(selfo, "a"), [Fraction(100), 4], {})
             finally:
